@@ -160,13 +160,17 @@ def hostile_payloads() -> List[tuple]:
     viol = []
     nodes_list = [[{"processor": "FloatDataSink"}], [{"processor": "FloatCollectValueProbe", "context_key": "a"}],
                   [{"processor": "FloatMultiplyOperation", "parameters": {"factor": 2.0}}],
-                  [{"processor": 'template:"{mixed}-{tup}-{sur}":label'}]]       # reads the awkward values as parameters
+                  [{"processor": 'template:"{mixed}-{tup}-{sur}":label'}],
+                  [{"processor": 'template:"{nan}/{inf}":label'}, {"processor": "FloatMultiplyOperation", "parameters": {"factor": float("inf")}}],
+                  [{"processor": "FloatCollectValueProbe", "context_key": "a"}, {"processor": "VBoomOperation"}]]       # reads the awkward values as parameters
     for nodes in nodes_list:
         for detail in ["hash", "repr", "context", "all"]:
             def payload():
                 return verif_ext.VWeirdFloat(3.0), {"g": (i for i in range(3)), "e": verif_ext.VBadEq(), "k": 1.0,
                                                     "mixed": {1: "a", "b": 2}, "tup": {(1, 2): "t"},
-                                                    "sur": "scan_\udcff.dat", "uni": "caf\u00e9_\u6e2c\u5b9a"}     # lone surrogate (os.fsdecode of a non-UTF-8 name), non-ASCII text
+                                                    "sur": "scan_\udcff.dat", "uni": "caf\u00e9_\u6e2c\u5b9a",
+                                                    "arr": __import__("numpy").arange(4.0), "arrs": [__import__("numpy").array([1, 2])],
+                                                    "nan": float("nan"), "inf": float("inf")}     # lone surrogate (os.fsdecode of a non-UTF-8 name), non-ASCII text
             # plain Pipeline objects here: the recording orchestrator deep-copies contexts, which these values refuse
             def plain_run(d, c, drv=None):
                 import copy as _copy
@@ -176,7 +180,8 @@ def hostile_payloads() -> List[tuple]:
                 o = {"raised": None, "final": None}
                 try:
                     res = Pipeline(_copy.deepcopy(nodes), trace=drv).process(Payload(d, ContextType(c)))
-                    o["final"] = (a_data(res.data), {k: (v if isinstance(v, (int, float, str)) else type(v).__name__) for k, v in res.context.to_dict().items()})
+                    o["final"] = (a_data(res.data), {k: (repr(v) if isinstance(v, (int, float, str)) else type(v).__name__)   # repr: nan == nan here
+                                                     for k, v in res.context.to_dict().items()})
                 except Exception as exc:
                     o["raised"] = f"{type(exc).__name__}: {str(exc)[:160]}"
                 return o
